@@ -12,6 +12,8 @@ disqualifying), or the expiry instant simply passes. After every event the same 
      key whose only self-signature was damaged ("no valid self-signature"): the property lists both as disqualifying, so verify() must
      be falsy. PGPy's PGPKey.self_verified is a stub that answers OK (finding D41): these cases are reported as KNOWN-FINDING.
   D  (one case per object kind) a bytearray document edited in place between verifications with the same signature object
+  U  (one case per object kind) signatures examined against subjects of a kind their type does not sign (no hash input): an error or a
+     falsy verdict that lists the signature, never a verdict that leaves it out
   T  (one case per object kind) a key with a lifetime that ends two to three seconds from now: verify, wait for the instant, verify
 
 Histories: every sequence over {V, X, R} of length <= 4 with at most one X and one R, on three kinds of object (the public twin, the
@@ -94,6 +96,39 @@ def run_case(case):
             doc += b'!'
             probs += verdict_problems(obj.verify(doc, dsig), 1, False, 'the same document object after an octet was appended')
             return case, probs
+        if case['history'] == 'U':
+            # signatures examined against a subject of a kind their type does not sign: there is no hash input. An error, or a falsy
+            # verdict that lists the signature - never a (truthy) verdict that leaves it out
+            obj = subject(key, case['kind'])
+            uid = obj.userids[0]
+            cert = key.userids[0].selfsig
+            tsig = key.sign(pgpy.PGPMessage.new('some text', cleartext=True))
+            pairs = [('document signature, subject None', None, sig), ('document signature, subject a user id', uid, sig),
+                     ('document signature, subject a key', obj, sig), ('text signature, subject a user id', uid, tsig),
+                     ('user id certification, subject a key', obj, cert), ('user id certification, subject a text', 'some text', cert)]
+            for what, subj, sg in pairs:
+                try:
+                    v = obj.verify(subj, sg)
+                except Exception:
+                    continue          # an error is an allowed answer
+                probs += verdict_problems(v, 1, False, what)
+            # several signatures in one call: a certification was attached to the key itself, next to its proper signatures
+            try:
+                victim = pgpy.PGPKey.from_blob(bytes(key.pubkey))[0]
+                victim |= pgpy.PGPSignature.from_blob(bytes(cert))
+                n = len(list(victim.__sig__)) + sum(len(list(u.__sig__)) for u in victim.userids)
+                try:
+                    v = obj.verify(victim)
+                    good, bad = list(v.good_signatures), list(v.bad_signatures)
+                    if len(good) + len(bad) != n:
+                        probs.append('verify(key carrying a misplaced certification): %d signatures of this key on it, %d good + %d bad listed' % (n, len(good), len(bad)))
+                    if v and len(good) != n:
+                        probs.append('verify(key carrying a misplaced certification): truthy with %d of %d signatures good' % (len(good), n))
+                except Exception:
+                    pass
+            except Exception as ex:
+                probs.append('harness error (misplaced certification): %s: %s' % (type(ex).__name__, str(ex)[:80]))
+            return case, probs
         if case['history'] == 'S':
             from specs import indep
             pk = indep.packets(bytes(key.pubkey))
@@ -153,6 +188,7 @@ def component(tier='quick', seed=0, known=()):
     cases += [{'alg': a, 'kind': k, 'history': h, 'variant': 'the certification has itself expired'} for a in ALGS for k in KINDS for h in ('XV', 'VXV', 'XRV')]
     cases += [{'alg': a, 'kind': k, 'history': 'D'} for a in ALGS for k in KINDS]
     cases += [{'alg': a, 'kind': k, 'history': 'S'} for a in ALGS for k in ('key packet alone', 'only self-signature damaged')]
+    cases += [{'alg': a, 'kind': k, 'history': 'U'} for a in ALGS for k in KINDS]
     cases.sort(key=lambda c: c['history'] != 'T')
     ctx = multiprocessing.get_context('fork')
     with ctx.Pool(16) as pool:
@@ -172,7 +208,7 @@ def component(tier='quick', seed=0, known=()):
     return {'name': 'C17/verdict-along-the-history-of-a-key-object',
             'bound': 'all %d sequences over {verify, attach an expiring self-certification, attach a revocation} of length <= %d (at most one of each '
                      'attachment, at least one verification) x %d object kinds x %d algorithms, plus the passing of the expiry instant, plus keys without a '
-                     '(valid) self-signature'
+                     '(valid) self-signature, plus signatures examined against subjects their type does not sign'
                      % (len(histories(maxlen)), maxlen, len(KINDS), len(ALGS)),
             'cases': len(cases), 'distinct_nontrivial': sum(1 for c in cases if c['history'] == 'T' or ('X' in c['history'] and c['history'].index('X') > c['history'].index('V'))),
             'rule': 'one case = one history on one fresh key; non-trivial = a verification precedes the event that makes the key expired',
